@@ -23,7 +23,9 @@
 (* effect when called and Abort keeps them (no roll-back); Get/Set after   *)
 (* Abort are not repeated here (Txn.tla covers them); Commit after Abort   *)
 (* returns the result list and releases nothing.  Transaction t writes the *)
-(* value "v<t>", so every value read names its writer.                     *)
+(* value "v<t>", so every value read names its writer.  A Begin names the   *)
+(* transaction mode (read-only / read-write): isolation is required of     *)
+(* both alike, a read-only transaction must not run inside another one.    *)
 (***************************************************************************)
 EXTENDS Integers, Sequences, FiniteSets, TLC
 SX == INSTANCE SequencesExt
@@ -31,7 +33,8 @@ SX == INSTANCE SequencesExt
 CONSTANTS NT,        \* number of transactions
           Keys,      \* set of strings
           MaxCalls,  \* Get/Set calls per transaction
-          WithAbort  \* TRUE: Abort is part of the alphabet
+          WithAbort, \* TRUE: Abort is part of the alphabet
+          Modes      \* transaction modes a Begin may ask for ("rw", "ro"): the requirement is the same for all
 
 VARIABLE st   \* [store, lock, tx]
 
@@ -82,7 +85,8 @@ Commit(s, t) ==
 -----------------------------------------------------------------------------
 C(t, op, k, v) == [t |-> t, op |-> op, k |-> k, v |-> v]
 Calls ==
-       { C(t, op, "", "") : t \in T, op \in {"begin", "commit"} \cup (IF WithAbort THEN {"abort"} ELSE {}) }
+       { C(t, op, "", "") : t \in T, op \in {"commit"} \cup (IF WithAbort THEN {"abort"} ELSE {}) }
+  \cup { C(t, "begin", m, "") : t \in T, m \in Modes }   \* field k carries the mode
   \cup { C(t, "get", k, "") : t \in T, k \in Keys }
   \cup { C(t, "set", k, v) : t \in T, k \in Keys, v \in {"own", "nil"} }
 
